@@ -258,10 +258,42 @@ func runRaftWiring(c *core.Ctx) {
 		c.Lost("newServerCtxs:genResources", "per-context resource closure not found")
 		return
 	}
+	// local closures of newServerCtxs (wrappers a refactoring may introduce), by variable
+	localLits := map[types.Object]*ast.FuncLit{}
+	ast.Inspect(fn.Body(), func(n ast.Node) bool {
+		if as, ok := n.(*ast.AssignStmt); ok && len(as.Lhs) == 1 && len(as.Rhs) == 1 {
+			if lit, ok := an.Unparen(as.Rhs[0]).(*ast.FuncLit); ok {
+				if o := an.ObjOf(info, as.Lhs[0]); o != nil {
+					localLits[o] = lit
+				}
+			}
+		}
+		return true
+	})
+	// a call that creates a fresh manager: NewLocalSharedManager itself, or a local closure whose body is `return <such a call>`
+	var makesManager func(call *ast.CallExpr, depth int) bool
+	makesManager = func(call *ast.CallExpr, depth int) bool {
+		if an.IsFuncNamed(an.CalleeFunc(info, call), an.PkgResources, "NewLocalSharedManager") {
+			return true
+		}
+		if depth > 2 {
+			return false
+		}
+		if id, ok := an.Unparen(call.Fun).(*ast.Ident); ok {
+			if lit := localLits[info.ObjectOf(id)]; lit != nil && lit != gen && len(lit.Body.List) == 1 {
+				if rs, ok := lit.Body.List[0].(*ast.ReturnStmt); ok && len(rs.Results) == 1 {
+					if inner, ok := an.Unparen(rs.Results[0]).(*ast.CallExpr); ok {
+						return makesManager(inner, depth+1)
+					}
+				}
+			}
+		}
+		return false
+	}
 	// no manager is created inside the closure
 	created := false
 	ast.Inspect(gen, func(n ast.Node) bool {
-		if call, ok := n.(*ast.CallExpr); ok && an.IsFuncNamed(an.CalleeFunc(info, call), an.PkgResources, "NewLocalSharedManager") {
+		if call, ok := n.(*ast.CallExpr); ok && (an.IsFuncNamed(an.CalleeFunc(info, call), an.PkgResources, "NewLocalSharedManager") || makesManager(call, 0)) {
 			created = true
 		}
 		return true
@@ -274,7 +306,7 @@ func runRaftWiring(c *core.Ctx) {
 			return false
 		}
 		if as, ok := n.(*ast.AssignStmt); ok && len(as.Lhs) == 1 && len(as.Rhs) == 1 {
-			if call, ok := an.Unparen(as.Rhs[0]).(*ast.CallExpr); ok && an.IsFuncNamed(an.CalleeFunc(info, call), an.PkgResources, "NewLocalSharedManager") {
+			if call, ok := an.Unparen(as.Rhs[0]).(*ast.CallExpr); ok && makesManager(call, 0) {
 				if o := an.ObjOf(info, as.Lhs[0]); o != nil {
 					managers[o] = true
 				}
@@ -284,6 +316,7 @@ func runRaftWiring(c *core.Ctx) {
 	})
 	// definitions of locals inside gen: var -> set of managers it derives from (nil entry = derives from something else)
 	var derive func(ex ast.Expr, depth int) (mgr types.Object, ok bool)
+	var deriveBound func(ex ast.Expr, bind map[types.Object]ast.Expr, depth int) (types.Object, bool)
 	defs := map[types.Object][]ast.Expr{}
 	ast.Inspect(gen, func(n ast.Node) bool {
 		switch x := n.(type) {
@@ -304,6 +337,35 @@ func runRaftWiring(c *core.Ctx) {
 		}
 		return true
 	})
+	deriveBound = func(ex ast.Expr, bind map[types.Object]ast.Expr, depth int) (types.Object, bool) {
+		if depth > 6 {
+			return nil, false
+		}
+		ex = an.Unparen(ex)
+		switch x := ex.(type) {
+		case *ast.Ident:
+			if b, ok := bind[info.ObjectOf(x)]; ok {
+				return derive(b, depth+1)
+			}
+		case *ast.CallExpr:
+			f := an.CalleeFunc(info, x)
+			if an.IsMethodNamed(f, an.PkgResources, "LocalSharedManager", "MakeLocalShared") {
+				sel := an.Unparen(x.Fun).(*ast.SelectorExpr)
+				if id, ok := an.Unparen(sel.X).(*ast.Ident); ok {
+					if b, ok := bind[info.ObjectOf(id)]; ok {
+						if o := an.ObjOf(info, b); managers[o] {
+							return o, true
+						}
+						return nil, false
+					}
+				}
+			}
+			if an.IsFuncNamed(f, an.PkgResources, "MakePersistent") && len(x.Args) == 3 {
+				return deriveBound(x.Args[2], bind, depth+1)
+			}
+		}
+		return derive(ex, depth+1)
+	}
 	derive = func(ex ast.Expr, depth int) (types.Object, bool) {
 		if depth > 5 {
 			return nil, false
@@ -322,9 +384,48 @@ func runRaftWiring(c *core.Ctx) {
 			if an.IsFuncNamed(f, an.PkgResources, "MakePersistent") && len(x.Args) == 3 {
 				return derive(x.Args[2], depth+1)
 			}
-			// local wrapper closures such as toMap(res)
-			if id, ok := an.Unparen(x.Fun).(*ast.Ident); ok && len(x.Args) == 1 {
-				if _, isVar := info.ObjectOf(id).(*types.Var); isVar {
+			// local wrapper closures: toMap(res), persistIfEnabled(name, maker) - every return of the closure must derive
+			// from the same manager once its parameters are replaced by the arguments
+			if id, ok := an.Unparen(x.Fun).(*ast.Ident); ok {
+				if lit := localLits[info.ObjectOf(id)]; lit != nil && lit != gen {
+					bind := map[types.Object]ast.Expr{}
+					ai := 0
+					for _, fld := range lit.Type.Params.List {
+						for _, nm := range fld.Names {
+							if ai < len(x.Args) {
+								bind[info.Defs[nm]] = x.Args[ai]
+							}
+							ai++
+						}
+					}
+					var m types.Object
+					okAll, nret := true, 0
+					ast.Inspect(lit.Body, func(k ast.Node) bool {
+						if inner, isLit := k.(*ast.FuncLit); isLit && inner != lit {
+							return false
+						}
+						rs, isRet := k.(*ast.ReturnStmt)
+						if !isRet || len(rs.Results) != 1 {
+							return true
+						}
+						nret++
+						dm, ok := deriveBound(rs.Results[0], bind, depth+1)
+						if !ok || dm == nil || (m != nil && dm != m) {
+							okAll = false
+						}
+						m = dm
+						return true
+					})
+					if okAll && nret > 0 && m != nil {
+						return m, true
+					}
+					// the incMap-style wrapper: a closure returning a resource that hands out its argument
+					if len(x.Args) == 1 {
+						return derive(x.Args[0], depth+1)
+					}
+					return nil, false
+				}
+				if _, isVar := info.ObjectOf(id).(*types.Var); isVar && len(x.Args) == 1 {
 					return derive(x.Args[0], depth+1)
 				}
 			}
